@@ -5,7 +5,7 @@ patch="$(readlink -f "$1")"; id="$2"; shift 2
 cd /repo || exit 2
 if ! git diff --quiet; then echo "repo dirty, refusing"; exit 2; fi
 git apply "$patch" || { echo "patch does not apply"; exit 2; }
-cd /verif && ./check "$id" "$@"; rc=$?
+cd /verif && VERIF_NO_EVIDENCE=1 ./check "$id" "$@"; rc=$?
 git -C /repo checkout -- . 
 echo "mutant rc=$rc (1 = detected)"
 exit $rc
